@@ -301,6 +301,7 @@ func child(seed int64, n int, dir string) {
 	runCorrelated(g, scratch, os.Getenv("VERIF_TIER") == "thorough", &cs, sigs)
 	runSpecial(g, scratch, os.Getenv("VERIF_TIER") == "thorough", &cs, sigs)
 	runFailingLoads(g, scratch, os.Getenv("VERIF_TIER") == "thorough", &cs, sigs)
+	runFunctionGrid(g, scratch, os.Getenv("VERIF_TIER") == "thorough", &cs, sigs)
 	n += cs.Queries // the matrix comes on top of the n generated statements
 	for cs.Queries < n {
 		repo, err := os.MkdirTemp(scratch, "c13repo-")
